@@ -1,14 +1,19 @@
-"""C15 -- area, exchanger-count and capital-cost targets follow their definitions (the parts within reach).
+"""C15 -- area, exchanger-count and capital-cost targets follow their definitions.
 
 families:
-  cost       compute_capital_cost, compute_annual_capital_cost, compute_capital_recovery_factor, get_capital_cost_targets with
-             area / unit count / cost factors / discount rate as z3 reals: C = N(a + b (A/N)^c) (x^c an uninterpreted, strictly
-             increasing power function), annualised = C * CRF, CRF * sum_{k=1..n} (1+i)^-k = 1 as a rational-function identity for
-             concrete lives n = 1..6 (thorough ..10), both costs strictly increasing in area.
-  balanced   the pipeline harness with balanced curves on: the balanced hot and cold composite curves (process + assigned
-             utilities) have equal enthalpy spans on the shifted and on the real table, and are the column sums they are defined as.
-Not covered (stated in MANIFEST/DESIGN): the area integral itself (get_area_targets: np.interp / make_monotonic epsilon offsets / 6-dp
-enthalpy rounding around log-mean differences of ratios of unknowns) and the unit-count heuristic; the LMTD clauses are decided under C20.
+  cost        compute_capital_cost, compute_annual_capital_cost, compute_capital_recovery_factor, get_capital_cost_targets with
+              area / unit count / cost factors / discount rate as z3 reals: C = N(a + b (A/N)^c) (x^c an uninterpreted, strictly
+              increasing power function), annualised = C * CRF, CRF * sum_{k=1..n} (1+i)^-k = 1 as a rational-function identity for
+              concrete lives n = 1..6 (thorough ..10), both costs strictly increasing in area.
+  resistance  get_balanced_CC called directly with film resistances (or heat-capacity flowrates) as z3 reals: each interval resistance
+              is the duty-weighted film resistance of the process and utility participants present.
+  area        the direct-integration pipeline with DO_AREA_TARGETING on concrete templates whose film resistances (every stream and
+              utility) are z3 reals: reported area == harness/arearef.py (independent balanced composites / enthalpy intervals / LMTD),
+              area > 0, capital cost = N(a + b (A/N)^c) of that area.
+  balanced    the pipeline harness with balanced curves on: the balanced hot and cold composite curves (process + assigned
+              utilities) have equal enthalpy spans on the shifted and on the real table, and are the column sums they are defined as.
+Outside (stated in MANIFEST/DESIGN): symbolic temperatures or duties inside the area integral (log-mean differences of ratios of unknowns)
+and the unit-count heuristic; the LMTD clauses are decided under C20.
 """
 from __future__ import annotations
 
@@ -76,6 +81,140 @@ def body_balanced(ctx, case):
             ctx.tag("balanced spans compared")
 
 
+TGRID = {3: [200.0, 150.0, 100.0], 4: [200.0, 180.0, 120.0, 60.0], 5: [250.0, 200.0, 180.0, 120.0, 60.0]}
+
+
+def body_resistance(ctx, case):
+    """get_balanced_CC called directly: per temperature interval, one process and one utility participant on each side, with
+    heat-capacity flowrates (family `cp`) or film resistances (family `r`) as z3 reals."""
+    import numpy as np
+    from OpenPinch.analysis import capital_cost_and_area_targeting as cc
+    from OpenPinch.lib.enums import PT
+    Ts = TGRID[case["n"]]
+    n = len(Ts)
+    dT = [0.0] + [Ts[k - 1] - Ts[k] for k in range(1, n)]
+    sym_cp = case["sym"] == "cp"
+    cps = case.get("cps")      # concrete CPs when the film resistances are symbolic: per interval (hot, hot_ut, cold, cold_ut)
+    rs = case.get("rs")        # concrete resistances (hot, hot_ut, cold, cold_ut) when the CPs are symbolic
+    CP, R = {}, {}
+    for side in ("h", "hu", "c", "cu"):
+        j = ("h", "hu", "c", "cu").index(side)
+        R[side] = ctx.real(f"r_{side}", 1.0 / 64, 64) if not sym_cp else ctx.const(float(rs[j]))
+        CP[side] = [None] * n
+        for k in range(1, n):
+            if sym_cp:
+                v = ctx.real(f"cp_{side}{k}", 0, 100)
+                ctx.assume(h.disj([h.close(v, 0.0, 0.0), v >= 1.0 / 8]))      # absent in this interval, or present with a real duty
+            else:
+                v = ctx.const(float(cps[k - 1][j]))
+            CP[side][k] = v
+    def cum(side):
+        col = [ctx.const(0.0)] * n
+        for k in range(n - 2, -1, -1):
+            col[k] = col[k + 1] + CP[side][k + 1] * dT[k + 1]
+        return col
+    def rcp(side):
+        return [ctx.const(0.0)] + [CP[side][k] * R[side] for k in range(1, n)]
+    arr = (lambda xs: np.array(xs, dtype=object)) if ctx.mode != "concrete" else (lambda xs: np.array([float(x) for x in xs]))
+    res = cc.get_balanced_CC(arr(cum("h")), arr(cum("c")), arr(cum("hu")), arr(cum("cu")), arr(dT), arr(rcp("h")), arr(rcp("c")), arr(rcp("hu")), arr(rcp("cu")))
+    for tag, a, b, key in (("hot", "h", "hu", PT.R_HOT_BAL.value), ("cold", "c", "cu", PT.R_COLD_BAL.value)):
+        Rb = list(res[key])
+        conds = [h.close(Rb[0], 0.0, 1e-12)]
+        for k in range(1, n):
+            q_a, q_b = CP[a][k] * dT[k], CP[b][k] * dT[k]
+            tot = q_a + q_b
+            # duty-weighted film resistance of the interval: sum_j q_j r_j / sum_j q_j  (0 where the side carries no duty)
+            conds.append(h.disj([h.conj([tot <= 1e-6, h.close(Rb[k], 0.0, 1e-12)]),
+                                 h.conj([tot > 1e-6, h.close(Rb[k] * tot, q_a * R[a] + q_b * R[b], 1e-9)])]))
+            if bool(CP[a][k] > 0) and bool(CP[b][k] > 0):
+                ctx.tag("process and utility share an interval")
+        ctx.require(h.conj(conds), f"{tag}: interval resistance is the duty-weighted film resistance of the streams and utilities present")
+        Hb = list(res[PT.H_HOT_BAL.value if tag == "hot" else PT.H_COLD_BAL.value])
+        ctx.require(h.close(Hb[0] - Hb[-1], sum((CP[a][k] * dT[k] + CP[b][k] * dT[k] for k in range(1, n)), ctx.const(0.0)), 1e-9),
+                    f"{tag}: balanced curve spans the process plus utility duty")
+
+
+def body_area(ctx, case):
+    """the whole direct-integration pipeline with area targeting on, on a concrete stream / utility template whose film resistances are
+    z3 reals: the reported area target against harness/arearef.py (independent balanced composites, enthalpy intervals and LMTDs)."""
+    from harness import arearef
+    site, info, recs = pipeline.run_site(ctx, case)
+    zn = list(info.keys())[0]
+    t = site.subzones[zn].targets[f"{zn}/Direct Integration"]
+    got = getattr(t, "Area target")
+    fl = lambda v: float(h.fl(v))
+    hot, cold = [], []
+    for st in info[zn]:
+        s = st["s"]
+        (hot if st["hot"] else cold).append((fl(s.t_max), fl(s.t_min), fl(s.CP), 1 / s.htc))
+    for lst, side in ((t.hot_utilities, hot), (t.cold_utilities, cold)):
+        for u in lst:
+            if fl(u.heat_flow) > 1e-9:
+                side.append((fl(u.t_max), fl(u.t_min), fl(u.heat_flow) / (fl(u.t_max) - fl(u.t_min)), 1 / u.htc))
+                ctx.tag("utility carries duty")
+    ref, ivs = arearef.area(hot, cold)
+    # templates where a balanced curve has a temperature gap at the end of an enthalpy interval and the NEXT interval ends with a smaller
+    # temperature difference are witnessed (fixed defect 77dabd0: the library used that smaller difference for the interval before the gap)
+    gap = False
+    for a, b in zip(ivs, ivs[1:]):
+        jump = abs(a[3] - b[2]) > 1e-6 or abs(a[5] - b[4]) > 1e-6            # hot or cold curve jumps at the shared enthalpy
+        if jump and (b[3] - b[5]) < (a[3] - a[5]) - 1e-9:
+            gap = True
+    if gap:
+        ctx.tag("composite curve with a temperature gap")
+    ctx.require(h.close(got, ref, 1e-6 * max(1.0, abs(fl(ref)) if ctx.mode == "concrete" else 1.0) + 1e-4),
+                "area target equals the sum over enthalpy intervals of duty x duty-weighted film resistances / counter-current LMTD")
+    ctx.require(got > 0, "area target finite and positive")
+    # the capital cost reported with it is N(a + b (A/N)^c) of THIS area and the zone's cost parameters (the cost laws themselves: family `cost`)
+    n_units = getattr(t, "Units target")
+    cap = getattr(t, "Capital cost target")
+    cfg = site.subzones[zn].config
+    if n_units and n_units > 0:
+        ctx.require(h.close(cap, n_units * (cfg.FIXED_COST + cfg.VARIABLE_COST * (got / n_units) ** cfg.COST_EXP), 1e-6 * 1e6),
+                    "capital cost target is N(a + b (A/N)^c) of the area target")
+        ctx.tag("capital cost compared")
+    ctx.tag("area compared")
+    ctx.note("area", got)
+
+
+AREA_SITES = {
+    # (ts, tt, cp) per stream; dt_cont 5 everywhere
+    "pinched": [(150, 60, 2), (50, 140, 3)],
+    "three_streams": [(250, 120, 2), (110, 180, 3), (140, 40, 1)],
+    "four_streams": [(180, 80, 3), (130, 40, 1.5), (30, 120, 2), (60, 100, 4)],
+    "cold_overlaps_cw": [(180, 60, 2), (25, 100, 1), (30, 90, 0.5)],
+}
+AREA_UTILS = {
+    "hp_cw": [{"type": "Hot", "level": 300, "name": "HP", "r": "sym"}, {"type": "Cold", "level": 20, "name": "CW", "r": "sym"}],
+    "ladder": [{"type": "Hot", "level": 300, "name": "HP", "r": "sym"}, {"type": "Hot", "level": 150, "name": "MP", "r": "sym"},
+               {"type": "Cold", "level": 20, "name": "CW", "r": "sym"}, {"type": "Cold", "level": 90, "name": "HW", "r": "sym"}],
+    "cw_glide": [{"type": "Hot", "level": 300, "name": "HP", "r": "sym"}, {"type": "Cold", "level": 20, "glide": 10, "name": "CW", "r": "sym"}],
+    "mp_inside": [{"type": "Hot", "level": 160, "name": "MP", "r": "sym"}, {"type": "Cold", "level": 20, "name": "CW", "r": "sym"}],
+}
+
+
+def cases_area(tier, seed):
+    combos = [("pinched", "ladder"), ("three_streams", "hp_cw"), ("cold_overlaps_cw", "cw_glide")]
+    if tier != "quick":
+        combos += [("pinched", "hp_cw"), ("three_streams", "ladder"), ("four_streams", "ladder"), ("four_streams", "hp_cw"), ("four_streams", "mp_inside"),
+                   ("three_streams", "cw_glide"), ("cold_overlaps_cw", "hp_cw")]
+    out = []
+    for sn, un in combos:
+        out.append({"family": "mix", "template": sn, "utilities": un, "options": {"DO_AREA_TARGETING": True},
+                    "zones": [[{"ts": a, "tt": b, "cp": c, "dt": 5, "r": "sym"} for a, b, c in AREA_SITES[sn]]], "utils": AREA_UTILS[un]})
+    return out
+
+
+def cases_resistance(tier, seed):
+    out = [{"n": 3, "sym": "r", "cps": [(2, 0, 1, 3), (2, 4, 3, 0)]},
+           {"n": 3, "sym": "cp", "rs": (0.5, 0.125, 2.0, 0.25)}]
+    if tier != "quick":
+        out += [{"n": 4, "sym": "r", "cps": [(2, 1, 0, 3), (0, 4, 3, 0.5), (5, 0, 0, 0)]},
+                {"n": 4, "sym": "cp", "rs": (1.0, 0.0625, 0.5, 4.0)},
+                {"n": 5, "sym": "r", "cps": [(2, 1, 0, 3), (0, 4, 3, 0.5), (5, 0, 0, 0), (1, 1, 1, 1)]}]
+    return out
+
+
 def cases_cost(tier, seed):
     out = []
     years = (1, 2, 3, 5) if tier == "quick" else (1, 2, 3, 4, 5, 6, 8, 10)
@@ -101,6 +240,23 @@ FAMILIES = [
            assumptions=["x^c is an uninterpreted function constrained only by: positive, 1^c = 1, strictly increasing in x for c > 0",
                         "integer powers (1+i)^k are expanded to polynomials; the annuity identity is a rational-function identity decided after gcd cancellation"],
            shim_modules=["OpenPinch.utils.costing", "OpenPinch.analysis.capital_cost_and_area_targeting"], split_paths=0, timeout_ms=60000, reach=["cost laws"]),
+    Family(name="resistance", cases=cases_resistance, body=body_resistance, functions=["get_balanced_CC"], files=FILES[1:],
+           bounds="get_balanced_CC on tables of 3 rows (thorough: 3-5) on fixed temperature grids, one process and one utility participant per side and interval: either the four film "
+                  "resistances are z3 reals in [1/64,64] with concrete heat-capacity flowrates, or the per-interval heat-capacity flowrates are z3 reals (0 or >= 1/8) with concrete resistances",
+           assumptions=["floats modelled as exact reals", "interval temperatures concrete", "a participant is absent from an interval (CP = 0) or present with CP >= 1/8"],
+           shim_modules=["OpenPinch.analysis.capital_cost_and_area_targeting"], snap="dyadic", split_paths=20, validate_every=3,
+           reach=["process and utility share an interval"]),
+    Family(name="area", cases=cases_area, body=body_area,
+           functions=["get_area_targets", "get_balanced_CC", "_map_interval_resistances_to_tdf", "get_temperature_driving_forces", "_normalise_curve", "_build_h_grid",
+                      "_collect_discontinuities", "interp_with_plateaus", "make_monotonic", "compute_LMTD_from_dts", "clean_composite_curve_ends",
+                      "_sum_mcp_between_temperature_boundaries", "Stream._calc_htr_and_cp_product"] + pipeline.FUNCS[:12],
+           files=FILES[1:] + ["OpenPinch/analysis/temperature_driving_force.py", "OpenPinch/utils/heat_exchanger.py", "OpenPinch/utils/miscellaneous.py"] + pipeline.FILES[:6],
+           bounds="the direct-integration pipeline with DO_AREA_TARGETING on concrete stream/utility templates (quick 3, thorough 10: 2-4 process streams; default-style, laddered, "
+                  "gliding and in-range utilities) with the film resistance 1/htc of EVERY stream and utility a z3 real in [1/64,64]; temperatures, heat-capacity flowrates and "
+                  "hence duties, enthalpy intervals and log-mean temperature differences are concrete per template",
+           assumptions=["floats modelled as exact reals", "temperatures and heat-capacity flowrates concrete per template (the area target is linear in the film resistances; "
+                        "logarithms are of constants and are evaluated numerically)", "reference: harness/arearef.py"],
+           shim_modules=None, snap="dyadic", split_paths=0, validate_every=1, concrete_uf=True, reach=["area compared", "utility carries duty", "composite curve with a temperature gap"]),
     Family(name="balanced", cases=cases_balanced, body=body_balanced, functions=["get_balanced_CC"] + pipeline.FUNCS[:12], files=FILES[1:] + pipeline.FILES[:6],
            bounds="pipeline line sweeps (see C02) with DO_BALANCED_CC on", assumptions=pipeline.ASSUME, shim_modules=None, snap="micro", split_paths=10, validate_every=5,
            reach=["balanced spans compared"]),
